@@ -336,66 +336,50 @@ func c15(r *core.Run) {
 	})
 
 	r.Check("D3/K3/event-update-then-notify", "watch events: Put ⇒ snapshot updated, then OnAdd; Delete ⇒ key deleted from the snapshot (when known), then OnDelete; listeners are those registered for the key; the pair passed on is the event's own key and value", func(o *core.O) {
-		if !o.Need(len(eventFns) > 0, "a cluster method taking []*clientv3.Event and notifying listeners (handleWatchEvents)") {
-			return
-		}
-		for _, f := range eventFns {
-			r.Fn(core.FuncName(f))
-			isType := core.FieldLoad("Event.Type")
-			put := core.Cmp(token.EQL, isType, core.IsConstInt(0))
-			del := core.Cmp(token.EQL, isType, core.IsConstInt(1))
-			adds, dels := core.Instrs(f, onAdd), core.Instrs(f, onDelete)
-			o.Site(len(adds)+len(dels), core.FuncName(f))
-			if len(adds) == 0 || len(dels) == 0 {
-				o.Fail(p.Pos(f.Pos()), "%s does not forward both Put and Delete events", core.FuncName(f))
+		isType := core.FieldLoad("Event.Type")
+		put := core.Cmp(token.EQL, isType, core.IsConstInt(0))
+		del := core.Cmp(token.EQL, isType, core.IsConstInt(1))
+		known := core.BoolVal(func(v ssa.Value) bool {
+			e, ok := v.(*ssa.Extract)
+			if !ok || e.Index != 1 {
+				return false
+			}
+			l, ok := e.Tuple.(*ssa.Lookup)
+			return ok && isValuesLoad(l.X)
+		})
+		// events handed to a handler that is read from a constant table indexed by the event type
+		// (`handlers[event.Type](c, key, event, listeners)` instead of a switch): c15_util.go
+		consts := &c20Consts{all: p.PkgFuncs(discovInt)}
+		var dispatches []c15Dispatch
+		tableHandler := map[*ssa.Function]bool{}
+		for _, f := range p.PkgFuncs(discovInt) {
+			if f.Parent() != nil || c15ParamOfType(f, "client/v3.Event") == nil {
 				continue
 			}
-			if w := core.Requires(f, onAdd, put); w != nil {
-				o.Fail(p.InstrPos(w), "OnAdd reachable for an event that is not a Put")
+			ds, why := c15Dispatches(f, consts)
+			if why != "" {
+				o.Unres(p.Pos(f.Pos()) + ": " + core.FuncName(f) + ": " + why)
 			}
-			if w := core.Requires(f, onDelete, del); w != nil {
-				o.Fail(p.InstrPos(w), "OnDelete reachable for an event that is not a Delete")
-			}
-			putE, _ := core.EdgesOf(f, put)
-			delE, _ := core.EdgesOf(f, del)
-			if w := core.ReachableFromEdges(putE, onAdd, isValuesUpdate); w != nil {
-				o.Fail(p.InstrPos(w), "Put event: listeners are notified before (or without) updating c.values — a listener joining now is replayed a stale set")
-			}
-			known := core.BoolVal(func(v ssa.Value) bool {
-				e, ok := v.(*ssa.Extract)
-				if !ok || e.Index != 1 {
-					return false
+			for _, d := range ds {
+				for k := int64(-1); k <= 3; k++ {
+					if e := d.entry(k); e != nil {
+						tableHandler[d.handler(e).fn] = true
+					}
 				}
-				l, ok := e.Tuple.(*ssa.Lookup)
-				return ok && isValuesLoad(l.X)
-			})
-			_, unknownE := core.EdgesOf(f, known)
-			var from []core.At
-			for _, e := range delE {
-				from = append(from, core.Head(e.To))
 			}
-			if w, ok := core.Reach(core.Q{From: from, Target: onDelete, Blocked: isValuesDelete, Cut: core.CutSet(unknownE)}); ok {
-				o.Fail(p.InstrPos(w), "Delete event: listeners are notified before (or without) deleting the key from c.values")
-			}
-			// a Delete must not re-add, a Put must not delete
-			nextEvent := func(in ssa.Instruction) bool {
-				u, ok := in.(*ssa.UnOp)
-				return ok && core.FieldAddrNameOfLoad(u) == "Event.Type"
-			}
-			if w := core.ReachableFromEdges(delE, isValuesUpdate, core.Or(onDelete, nextEvent)); w != nil {
-				o.Fail(p.InstrPos(w), "Delete event writes a value into c.values")
-			}
-			if w := core.ReachableFromEdges(putE, isValuesDelete, core.Or(onAdd, nextEvent)); w != nil {
-				o.Fail(p.InstrPos(w), "Put event deletes from c.values")
-			}
+			dispatches = append(dispatches, ds...)
+		}
+		if !o.Need(len(eventFns)+len(dispatches) > 0, "a cluster method taking []*clientv3.Event and notifying listeners (handleWatchEvents)") {
+			return
+		}
+		// listeners, payload and keys: the same requirements wherever the event is applied.
+		// isListeners: the value is (derived from) c.listeners[key]; keyParam: the watched key in f.
+		applied := func(f *ssa.Function, keyParam *ssa.Parameter, isListeners func(ssa.Value) bool) {
+			adds, dels := core.Instrs(f, onAdd), core.Instrs(f, onDelete)
 			// listeners: receivers derive from c.listeners[key]
-			keyParam := c15ParamOfType(f, "string")
 			for _, in := range append(append([]ssa.Instruction{}, adds...), dels...) {
 				recv := core.Args(in.(ssa.CallInstruction))[0]
-				if !core.DependsOn(recv, func(v ssa.Value) bool {
-					l, ok := v.(*ssa.Lookup)
-					return ok && core.IsFieldLoad(l.X, "cluster.listeners") && keyParam != nil && core.Forward(l.Index) == ssa.Value(keyParam)
-				}) {
+				if !core.DependsOn(recv, isListeners) {
 					o.Fail(p.InstrPos(in), "the notified listeners are not c.listeners[key]")
 				}
 			}
@@ -429,6 +413,168 @@ func c15(r *core.Run) {
 				if keyParam == nil || core.Forward(in.(*ssa.MapUpdate).Key) != ssa.Value(keyParam) {
 					o.Fail(p.InstrPos(in), "c.values is updated under a key other than the watched key")
 				}
+			}
+		}
+		listenersOf := func(keyParam *ssa.Parameter) func(ssa.Value) bool {
+			return func(v ssa.Value) bool {
+				l, ok := v.(*ssa.Lookup)
+				return ok && core.IsFieldLoad(l.X, "cluster.listeners") && keyParam != nil && core.Forward(l.Index) == ssa.Value(keyParam)
+			}
+		}
+		for _, f := range eventFns {
+			if tableHandler[f] && core.EdgeCount(f, put)+core.EdgeCount(f, del) == 0 {
+				continue // runs for one event type only, chosen by the table: decided below
+			}
+			r.Fn(core.FuncName(f))
+			adds, dels := core.Instrs(f, onAdd), core.Instrs(f, onDelete)
+			o.Site(len(adds)+len(dels), core.FuncName(f))
+			if len(adds) == 0 || len(dels) == 0 {
+				o.Fail(p.Pos(f.Pos()), "%s does not forward both Put and Delete events", core.FuncName(f))
+				continue
+			}
+			if w := core.Requires(f, onAdd, put); w != nil {
+				o.Fail(p.InstrPos(w), "OnAdd reachable for an event that is not a Put")
+			}
+			if w := core.Requires(f, onDelete, del); w != nil {
+				o.Fail(p.InstrPos(w), "OnDelete reachable for an event that is not a Delete")
+			}
+			putE, _ := core.EdgesOf(f, put)
+			delE, _ := core.EdgesOf(f, del)
+			if w := core.ReachableFromEdges(putE, onAdd, isValuesUpdate); w != nil {
+				o.Fail(p.InstrPos(w), "Put event: listeners are notified before (or without) updating c.values — a listener joining now is replayed a stale set")
+			}
+			_, unknownE := core.EdgesOf(f, known)
+			var from []core.At
+			for _, e := range delE {
+				from = append(from, core.Head(e.To))
+			}
+			if w, ok := core.Reach(core.Q{From: from, Target: onDelete, Blocked: isValuesDelete, Cut: core.CutSet(unknownE)}); ok {
+				o.Fail(p.InstrPos(w), "Delete event: listeners are notified before (or without) deleting the key from c.values")
+			}
+			// a Delete must not re-add, a Put must not delete
+			nextEvent := func(in ssa.Instruction) bool {
+				u, ok := in.(*ssa.UnOp)
+				return ok && core.FieldAddrNameOfLoad(u) == "Event.Type"
+			}
+			if w := core.ReachableFromEdges(delE, isValuesUpdate, core.Or(onDelete, nextEvent)); w != nil {
+				o.Fail(p.InstrPos(w), "Delete event writes a value into c.values")
+			}
+			if w := core.ReachableFromEdges(putE, isValuesDelete, core.Or(onAdd, nextEvent)); w != nil {
+				o.Fail(p.InstrPos(w), "Put event deletes from c.values")
+			}
+			keyParam := c15ParamOfType(f, "string")
+			applied(f, keyParam, listenersOf(keyParam))
+		}
+		// table dispatch: the handler that runs for a Put is entry 0 of the table, for a Delete entry 1;
+		// each is decided as the code of that one event type; no other type reaches a notifying handler
+		for _, d := range dispatches {
+			d := d
+			F := d.fn
+			r.Fn(core.FuncName(F))
+			o.Site(1, core.FuncName(F))
+			keyF := c15ParamOfType(F, "string")
+			for _, k := range []int64{-1, 2, 3} {
+				if e := d.entry(k); e != nil && d.reached(k) && c15Notifies(d.handler(e).fn, core.Or(onAdd, onDelete), 0) {
+					o.Fail(p.InstrPos(d.call), "%s notifies listeners for an event of type %d, which is neither a Put nor a Delete", core.FuncName(F), k)
+				}
+			}
+			for _, k := range []int64{0, 1} {
+				what := map[int64]string{0: "Put", 1: "Delete"}[k]
+				if !d.reached(k) {
+					o.Fail(p.InstrPos(d.call), "%s does not forward both Put and Delete events: the handler call is not reached for a %s", core.FuncName(F), what)
+					continue
+				}
+				e := d.entry(k)
+				if e == nil {
+					o.Fail(p.InstrPos(d.call), "%s does not forward both Put and Delete events: the handler table has no entry for a %s", core.FuncName(F), what)
+					continue
+				}
+				h := d.handler(e)
+				g := h.fn
+				r.Fn(core.FuncName(g))
+				// what the handler's parameters denote at the call
+				var keyParam *ssa.Parameter
+				var lis []*ssa.Parameter
+				for _, pa := range g.Params {
+					v, bound := h.bind[pa]
+					if !bound {
+						continue
+					}
+					switch {
+					case pa.Type().String() == "string":
+						if keyF != nil && core.Forward(v) == ssa.Value(keyF) {
+							keyParam = pa
+						}
+					case c15IsEventPtr(pa.Type()):
+						var base ssa.Value
+						if u, ok := d.typeLoad.(*ssa.UnOp); ok {
+							if fa, ok := u.X.(*ssa.FieldAddr); ok {
+								base = core.Forward(fa.X)
+							}
+						}
+						if base == nil || core.Forward(v) != base {
+							o.Fail(p.InstrPos(d.call), "the handler is chosen by the type of one event and handed another")
+						}
+					case strings.HasSuffix(pa.Type().String(), "internal.cluster"):
+						if F.Signature.Recv() != nil && len(F.Params) > 0 && core.Forward(v) != ssa.Value(F.Params[0]) {
+							o.Fail(p.InstrPos(d.call), "the handler is run on another cluster than the one that received the event")
+						}
+					default:
+						if core.DependsOn(v, listenersOf(keyF)) {
+							lis = append(lis, pa)
+						}
+					}
+				}
+				if core.EdgeCount(g, put)+core.EdgeCount(g, del) > 0 {
+					// the handler tests the type itself: decided above like every function that switches over it
+					inline := false
+					for _, f := range eventFns {
+						inline = inline || f == g
+					}
+					if !inline {
+						o.Fail(p.Pos(g.Pos()), "%s, the handler of %s events, never notifies the listeners", core.FuncName(g), what)
+					}
+					continue
+				}
+				adds, dels := core.Instrs(g, onAdd), core.Instrs(g, onDelete)
+				o.Site(len(adds)+len(dels), core.FuncName(g))
+				entry := []core.At{core.Entry(g)}
+				if k == 0 {
+					if len(adds) == 0 {
+						o.Fail(p.Pos(g.Pos()), "%s, the handler of Put events, never calls OnAdd (%s does not forward both Put and Delete events)", core.FuncName(g), core.FuncName(F))
+					}
+					if len(dels) > 0 {
+						o.Fail(p.InstrPos(dels[0]), "OnDelete reachable for an event that is not a Delete")
+					}
+					if w, ok := core.Reach(core.Q{From: entry, Target: onAdd, Blocked: isValuesUpdate}); ok {
+						o.Fail(p.InstrPos(w), "Put event: listeners are notified before (or without) updating c.values — a listener joining now is replayed a stale set")
+					}
+					if w, ok := core.Reach(core.Q{From: entry, Target: isValuesDelete}); ok {
+						o.Fail(p.InstrPos(w), "Put event deletes from c.values")
+					}
+				} else {
+					if len(dels) == 0 {
+						o.Fail(p.Pos(g.Pos()), "%s, the handler of Delete events, never calls OnDelete (%s does not forward both Put and Delete events)", core.FuncName(g), core.FuncName(F))
+					}
+					if len(adds) > 0 {
+						o.Fail(p.InstrPos(adds[0]), "OnAdd reachable for an event that is not a Put")
+					}
+					_, unknownE := core.EdgesOf(g, known)
+					if w, ok := core.Reach(core.Q{From: entry, Target: onDelete, Blocked: isValuesDelete, Cut: core.CutSet(unknownE)}); ok {
+						o.Fail(p.InstrPos(w), "Delete event: listeners are notified before (or without) deleting the key from c.values")
+					}
+					if w, ok := core.Reach(core.Q{From: entry, Target: isValuesUpdate}); ok {
+						o.Fail(p.InstrPos(w), "Delete event writes a value into c.values")
+					}
+				}
+				applied(g, keyParam, func(v ssa.Value) bool {
+					for _, pa := range lis {
+						if v == ssa.Value(pa) {
+							return true
+						}
+					}
+					return false
+				})
 			}
 		}
 	})
